@@ -61,7 +61,7 @@ func c15agent() {
 		R.Fatal = err.Error()
 		return
 	}
-	d.AddUser("root", "root-pw", true)   //nolint:errcheck
+	d.AddUser("root", "root-pw", true)    //nolint:errcheck
 	d.AddUser("alice", "alice-pw", false) //nolint:errcheck
 	// an upgradeable record (non-default set): with upgrades off a login must not rewrite it
 	salt := make([]byte, sets[1].SaltLen())
@@ -86,11 +86,11 @@ func c15agent() {
 	}
 	for _, raw := range [][]byte{{}, {0}, {0, 5, 'a'}, bytes.Repeat([]byte{0xff}, 50), ref.EncodeParts([]byte("a"), []byte("b"))} {
 		if c, err := net.Dial("unix", agent.Sasl); err == nil {
-			c.Write(raw)                          //nolint:errcheck
-			c.(*net.UnixConn).CloseWrite()        //nolint:errcheck
+			c.Write(raw)                                       //nolint:errcheck
+			c.(*net.UnixConn).CloseWrite()                     //nolint:errcheck
 			c.SetReadDeadline(time.Now().Add(5 * time.Second)) //nolint:errcheck
-			io.ReadAll(c)                         //nolint:errcheck
-			c.Close()                             //nolint:errcheck
+			io.ReadAll(c)                                      //nolint:errcheck
+			c.Close()                                          //nolint:errcheck
 		}
 		rec("sasl-malformed")
 	}
@@ -100,7 +100,7 @@ func c15agent() {
 		rec("ldap-bind")
 	}
 	if c, err := ldap.DialTimeout("tcp", agent.LDAP, 5*time.Second); err == nil {
-		c.Bind("alice", "alice-pw")                                                                                                                       //nolint:errcheck
+		c.Bind("alice", "alice-pw")                                                                                                                        //nolint:errcheck
 		c.Search(ldap.NewSearchRequest("dc=example", ldap.ScopeWholeSubtree, ldap.NeverDerefAliases, 0, 0, false, "(objectClass=*)", []string{"cn"}, nil)) //nolint:errcheck
 		rec("ldap-search")
 		m := ldap.NewModifyRequest("cn=alice,dc=example")
